@@ -100,7 +100,7 @@ RECIPES = [
     ("C06", "break", ["C06-R3"], "pyyeti/cb.py", "            M = M[np.ix_(pv, pv)]", "            M = M[np.ix_(pv, b)]", "asymmetric permutation"),
     # ---- C07
     ("C07", "break", ["C07-R1"], "pyyeti/expmint.py", "p = (332640.0, 15120.0, 10080.0, 420.0, 42.0, 1.0)", "p = (332640.0, 15120.0, 10080.0, 420.0, 24.0, 1.0)", "pade5 P coefficient"),
-    ("C07", "break", ["C07-R1"], "pyyeti/expmint.py", "            14675286699176463360000.0,", "            14675286699176463360001.0,", "degree-9 _geti2 literal"),
+    ("C07", "break", ["C07-R1"], "pyyeti/expmint.py", "            14675286699176463360000.0,", "            14675286699176563360000.0,", "degree-9 _geti2 literal (one digit, relative change 7e-9)"),
     ("C07", "break", ["C07-R1"], "pyyeti/expmint.py", "        B4 = self.A4 * 2 ** (-4 * s)\n        B6 = self.A6 * 2 ** (-6 * s)\n        U2 = mf._smart_matrix_product(\n            B6, b[13]", "        B4 = self.A4 * 2 ** (-3 * s)\n        B6 = self.A6 * 2 ** (-6 * s)\n        U2 = mf._smart_matrix_product(\n            B6, b[13]", "scaling of B4"),
     ("C07", "break", ["C07-R2"], "pyyeti/expmint.py", "    if norm1 <= 2.097847961257068:", "    if norm1 <= 20.97847961257068:", "getEPQ switch"),
     ("C07", "break", ["C07-R3"], "pyyeti/expmint.py", "        I += I.dot(E)\n        E = E.dot(E)", "        E = E.dot(E)\n        I += I.dot(E)", "squaring order"),
@@ -117,6 +117,7 @@ RECIPES = [
     ("C07", "neutral", [], "pyyeti/ssmodel.py", "            B = P + A.dot(Q)\n            C = self.C.copy()\n            D = self.C.dot(Q) + self.D\n            return SSModel(A, B, C, D, h, method)\n\n        if method == \"foh\":",
      "            B = P + A.dot(Q)\n            C = self.C.copy()\n            D = self.C.dot(P) + self.D\n            return SSModel(A, B, C, D, h, method)\n\n        if method == \"foh\":",
      "c2d zoha: Q is P (same object), either name may be used"),
+    ("C07", "neutral", [], "pyyeti/expmint.py", "            14675286699176463360000.0,", "            1.467528669917646336e22,", "same double written with fewer digits"),
     # ---- C08
     ("C08", "break", ["C08-R1"], "pyyeti/ode/solveunc.py", "                        dmpfrc0 = dmpfrc1 if i_last == i - 1 else bo @ vi\n                        i_last = i\n                        _f0 = F0k - dmpfrc0", "                        dmpfrc0 = dmpfrc1 if i_last == i - 1 else bo @ vi\n                        _f0 = F0k - dmpfrc0", "i_last update dropped"),
     ("C08", "break", ["C08-R2"], "pyyeti/ode/solveunc.py", "                        V[:, i] = Fp * di + Gp * vi + Ap * F0k + Bp * F1k", "                        V[:, i] = Fp * di + Gp * vi + Ap * F1k + Bp * F1k", "generator velocity step"),
